@@ -302,6 +302,97 @@ def w_spellings(item, seed=0):
     return t
 
 
+SCALES = {"float64": [1e-30, 1e-12, 1e-8, 1e8, 1e30], "float32": [1e-8, 1e-4, 1e4, 1e8]}
+MODES = ["default_dtype_float64", "no_grad", "inference_mode", "num_threads_1", "num_threads_4"]
+
+
+def w_scale_modes(item, seed=0):
+    """The estimator is a function of the image CONTENT: (a) multiplying both images by a constant (values of order
+    1e-30 .. 1e+30 in float64, 1e-8 .. 1e+8 in float32) must not change the returned shift — sub-pixel refinement
+    included, since an absolute epsilon or threshold anywhere breaks exactly this; (b) process-wide modes of the host
+    library (torch default dtype float64, no_grad / inference_mode, thread count) must not change it either. Judged
+    differentially against the same call at scale 1 in the default mode, for every implementation, every factor and
+    sub-pixel as well as integer shifts."""
+    import torch
+
+    from quantem.core.utils import imaging_utils as U
+
+    shape, which, s, up = tuple(item[0]), item[1], tuple(item[2]), item[3]
+    t = Tally()
+    im = make_image(shape, which, seed)
+    ref = fshift(im, s)
+
+    def call(impl, dt, scale=1.0, ret=False):
+        a, b = (ref * scale).astype(dt), (im * scale).astype(dt)
+        if impl == "numpy":
+            if ret:
+                sh, img = U.cross_correlation_shift(a, b, upsample_factor=up, return_shifted_image=True)
+                return np.asarray(sh, float), np.asarray(img, float) / scale
+            return np.asarray(U.cross_correlation_shift(a, b, upsample_factor=up), float), None
+        if impl == "torch_align":
+            # the lower-level entry point: takes the Fourier transforms, returns the shift (modulo the cell)
+            out = U.align_images_fourier_torch(torch.fft.fft2(torch.tensor(a)), torch.fft.fft2(torch.tensor(b)), upsample_factor=up)
+            return out.detach().cpu().numpy().astype(float), None
+        out = U.cross_correlation_shift_torch(torch.tensor(a), torch.tensor(b), upsample_factor=up)
+        return out.detach().cpu().numpy().astype(float), None
+
+    for impl in ("numpy", "torch", "torch_align"):
+        for dt in ("float64", "float32"):
+            tol = 1e-6 if dt == "float64" else 2e-3  # observed on the unchanged tree: 0 / <= 1e-4 px (float32 round-off of the scaled data)
+            itol = 1e-6 if dt == "float64" else 2e-3
+            try:
+                base = call(impl, dt, ret=(impl == "numpy"))
+            except Exception as ex:
+                t.fail({"relation": "canonical_call_accepted", "impl": impl, "dtype": dt}, {"part": "scale", "shape": list(shape), "image": which, "shift": list(s), "upsample": up}, f"{impl} {dt}: raised {type(ex).__name__}: {str(ex)[:150]}")
+                continue
+            iscale = max(float(np.abs(base[1]).max()), 1e-30) if base[1] is not None else 1.0
+            for scale in SCALES[dt]:
+                case = {"part": "scale", "shape": list(shape), "image": which, "shift": list(s), "upsample": up, "impl": impl, "dtype": dt, "scale": scale}
+                t.case(key=case, nontrivial=True)
+                try:
+                    got = call(impl, dt, scale, ret=(impl == "numpy"))
+                except Exception as ex:
+                    t.fail({"relation": "result_independent_of_image_scale", "impl": impl, "dtype": dt, "symptom": "raises"}, case, f"{impl} {dt} images x {scale:g}: raised {type(ex).__name__}: {str(ex)[:150]}")
+                    continue
+                e = float(np.max(np.abs(wrapdiff(got[0], base[0], shape)))) if got[0] is not None else 0.0
+                ei = float(np.abs(got[1] - base[1]).max()) / iscale if got[1] is not None else 0.0
+                t.stat(f"scale_shift_diff_{dt}", e)
+                t.stat(f"scale_image_diff_{dt}", ei)
+                if not (e <= tol and ei <= itol):
+                    t.fail({"relation": "result_independent_of_image_scale", "impl": impl, "dtype": dt, "upsampled": up > 1, "small": scale < 1}, case, f"{impl} {dt}: shape={shape} shift={list(s)} upsample={up}: images x {scale:g} give shift {None if got[0] is None else got[0].tolist()} vs {None if base[0] is None else base[0].tolist()} at scale 1 (diff {e:.3g} px), aligned image differs by {ei:.3g} of max")
+            if impl == "numpy":
+                continue
+            for mode in MODES:
+                case = {"part": "mode", "shape": list(shape), "image": which, "shift": list(s), "upsample": up, "impl": impl, "dtype": dt, "mode": mode}
+                t.case(key=case, nontrivial=True)
+                old_dt, old_thr = torch.get_default_dtype(), torch.get_num_threads()
+                try:
+                    if mode == "default_dtype_float64":
+                        torch.set_default_dtype(torch.float64)
+                        got = call(impl, dt)
+                    elif mode == "no_grad":
+                        with torch.no_grad():
+                            got = call(impl, dt)
+                    elif mode == "inference_mode":
+                        with torch.inference_mode():
+                            got = call(impl, dt)
+                    else:
+                        torch.set_num_threads(int(mode.rsplit("_", 1)[1]))
+                        got = call(impl, dt)
+                except Exception as ex:
+                    t.fail({"relation": "result_independent_of_global_mode", "impl": impl, "dtype": dt, "mode": mode, "symptom": "raises"}, case, f"{impl} {dt} under {mode}: raised {type(ex).__name__}: {str(ex)[:150]} (shape={shape} shift={list(s)} upsample={up})")
+                    continue
+                finally:
+                    torch.set_default_dtype(old_dt)
+                    torch.set_num_threads(old_thr)
+                e = float(np.max(np.abs(wrapdiff(got[0], base[0], shape)))) if got[0] is not None else 0.0
+                ei = float(np.abs(got[1] - base[1]).max()) / iscale if got[1] is not None else 0.0
+                t.stat(f"mode_shift_diff_{dt}", e)
+                if not (e <= tol and ei <= itol):
+                    t.fail({"relation": "result_independent_of_global_mode", "impl": impl, "dtype": dt, "mode": mode}, case, f"{impl} {dt} under {mode}: shape={shape} shift={list(s)} upsample={up}: shift {None if got[0] is None else got[0].tolist()} vs {None if base[0] is None else base[0].tolist()} in the default mode (diff {e:.3g} px), aligned image differs by {ei:.3g} of max")
+    return t
+
+
 REUSE_CASES = [("0", (0, 0)), ("0", (3, -5)), ("blob", (-2, 1)), ("1", (1, 4)), ("0", (0, 2))]
 
 
@@ -381,6 +472,10 @@ def run(ctx):
     ctx.pmap(w_options, opt_items, label="NumPy options", seed=ctx.seed)
     sp = [((8, 11), "0", (2, -3), 4), ((9, 9), "blob", (-1, 4), 3)] if q else [(sh, w, sft, u) for sh in [(8, 11), (9, 9), (8, 8)] for w in ("0", "blob") for sft in ((2, -3), (0, 0), (-1, 4)) for u in (1, 3, 8)]
     ctx.pmap(w_spellings, sp, chunk=1, label="alternative spellings / dtypes / layouts", seed=ctx.seed)
+    sm_shifts = [(3.4, -2.3), (2.0, -3.0)] if q else [(3.4, -2.3), (2.0, -3.0), (0.0, 0.0), (-1.25, 4.5), (0.5, 0.5)]
+    sm = [(sh, w, sft, u) for sh in ([(8, 11)] if q else [(8, 11), (9, 9), (12, 16)]) for w in (["0"] if q else ["0", "blob"]) for sft in sm_shifts for u in ([1, 2, 3, 8] if q else [1, 2, 3, 4, 5, 8, 16])]
+    ctx.coverage["bounds"]["scale_modes"] = {"scales": SCALES, "modes": MODES, "points": len(sm)}
+    ctx.pmap(w_scale_modes, sm, chunk=1, label="image scale / process-wide modes", seed=ctx.seed)
     reuse = list(itertools.product(impls, [(8, 11)] if q else [(8, 11), (9, 9)], [1, 4] if q else [1, 3, 8], range(len(REUSE_CASES))))
     ctx.coverage["bounds"]["buffer_reuse"] = {"cases": [[w, list(sh)] for w, sh in REUSE_CASES], "depth": 2 if q else 3}
     ctx.pmap(w_buffer_reuse, reuse, chunk=1, label="reused buffers (call histories)", seed=ctx.seed, depth=2 if q else 3)
@@ -394,6 +489,13 @@ def replay(ctx, case):
         r = w_spellings((case["shape"], case["image"], case["shift"], case["upsample"]), seed=ctx.seed)
         for f in r.fails:
             if f["case"]["variant"] == case["variant"]:
+                print("  ", f["msg"])
+                ctx.fail(f["cls"], f["case"], f["msg"])
+        return
+    if case.get("part") in ("scale", "mode"):
+        r = w_scale_modes((case["shape"], case["image"], case["shift"], case["upsample"]), seed=ctx.seed)
+        for f in r.fails:
+            if all(f["case"].get(k) == case.get(k) for k in ("impl", "dtype", "scale", "mode")):
                 print("  ", f["msg"])
                 ctx.fail(f["cls"], f["case"], f["msg"])
         return
